@@ -7,6 +7,23 @@ sys.path.insert(0, os.path.join(ROOT, 'lib'))
 import registry
 registry.load()
 
+TECHNIQUE = {
+ 'C01': 'stateful model-based property testing (rapidcheck op histories over aliasing handles vs an aliasing-aware std::vector model; scripted capacity-boundary sweep; live-instance and allocated-bytes accounting) under ASan',
+ 'C02': 'stateful model-based property testing (rapidcheck op histories with adversarial colliding key pools vs std::map / std::set) + bounded-exhaustive enumeration of small ordered maps, under ASan',
+ 'C03': 'stateful model-based property testing (op histories on String slots vs a std::string model, self-aliasing arguments), differential testing against snprintf, enumerated + random integer round trips, under ASan',
+ 'C04': 'stateful model-based property testing (path-addressed op histories vs a reference value graph with shared container nodes; metamorphic equality across representations) under ASan with allocated-bytes leak oracle',
+ 'C05': 'property-based round-trip testing (generated Var trees, all modes; file sweep over every read-chunk offset) + differential testing against an independent strict RFC 8259 parser, under ASan',
+ 'C06': 'coverage-guided fuzzing (libFuzzer, whole-vs-chunked oracle) + grammar-based property testing (generated RFC 8259 / XDL documents vs an independent parser; every prefix; every 2-chunk cut) under ASan',
+ 'C07': 'coverage-guided fuzzing (libFuzzer, tree-invariant and round-trip oracles in the target) + property-based round-trip testing of generated DOM trees + bounded-exhaustive tag/character soups, under ASan',
+ 'C08': 'bounded-exhaustive enumeration (all scalars, boundary pairs, all short byte strings, all case-pair combinations below 1443) against an independent UTF codec + rapidcheck ill-formed strings flush against allocation ends, under ASan',
+ 'C15': 'differential property testing against independent reference codecs (every length 0..1024 / 0..260, rapidcheck, libFuzzer) + bounded-exhaustive enumeration of hostile decoder inputs, under ASan',
+ 'C16': 'property-based differential testing (generated typed value sequences, three sinks) against a reference serializer with explicit shifts; readers fed the reference bytes; under ASan',
+ 'C17': 'stateful property-based testing (write/append/reopen histories, line structures around the 255/65536-byte edges, BOM encodings) with POSIX read as ground truth, under ASan',
+ 'C18': 'grammar-based property testing (generated INI texts + set() histories vs an INI model; generated CSV tables, cell-wise comparison) under ASan',
+ 'C19': 'bounded-exhaustive enumeration (every day of years 1..9999 x 3 times, every second of sampled days, every zone offset) against an independent calendar + rapidcheck fractional / ISO texts + libFuzzer on the parser, under ASan',
+ 'C20': 'property-based testing of exact algebraic identities over the prime field GF(2^61-1) (Schwartz-Zippel; generated pivot orders) + floating-point residual bounds against long double + rotation round trips on dense grids, under ASan',
+}
+
 props = [json.loads(l) for l in open(os.path.join(ROOT, 'properties.jsonl')) if l.strip()]
 checks, na = [], []
 for p in props:
@@ -27,7 +44,7 @@ for p in props:
                            text=P.get('level_text', 'Generated-input search against an explicit oracle: no counter-example among the counted cases; sub-spaces marked exhaustive in the evidence were enumerated completely. Absence of violations outside the explored cases is not shown.'),
                            design_ref=P.get('design_ref', 'DESIGN.md section 4, ' + pid)),
         level_note=P.get('level_note', '; '.join(P.get('assumptions', [])) or 'harness reference models and AddressSanitizer are trusted'),
-        technique=P.get('technique', 'property-based testing (rapidcheck generators + bounded-exhaustive enumeration) against a reference model, under ASan'),
+        technique=P.get('technique') or TECHNIQUE.get(pid, 'property-based testing (rapidcheck generators + bounded-exhaustive enumeration) against a reference model, under ASan'),
     ))
 m = dict(
     version=1,
